@@ -401,7 +401,11 @@ func build(cfg storeCfg, rng *rand.Rand) (*image, error) {
 		if err != nil {
 			return nil, err
 		}
-		ti.proof, err = st.DualProof(ti.hdr, lastHdr)
+		srcHdr, err := st.ReadTxHeader(id, false, false)
+		if err != nil {
+			return nil, err
+		}
+		ti.proof, err = st.DualProof(srcHdr, lastHdr)
 		if err != nil {
 			return nil, err
 		}
